@@ -445,4 +445,61 @@ theorem wfRun_prefix {a b : List Ev} : ∀ {g : Ghost}, (wfRun g (a ++ b)).isSom
     · simp at h
     · exact ih h
 
+
+/-- what a consistent disk serves is a completely written, logged, unreleased object of the requested key -/
+theorem serve_complete {g : Ghost} {d : Disk} (hinv : UInv g d) (k : Key) (sv : Served) (hs : serve d k = some sv) :
+    ∃ o ∈ g, o.id = sv.store ∧ o.key = k ∧ o.isAdded = true ∧ sv.served = o.total ∧ sv.promised = o.total := by
+  unfold serve at hs
+  split at hs
+  · cases hs
+  · rename_i e he
+    split at hs
+    · cases hs
+    · rename_i fl hfl
+      split at hs
+      · cases hs
+      · split at hs
+        · cases hs
+        · rename_i _ hkey
+          cases hs
+          obtain ⟨o, ho, hph, hid, hk, hf, ht⟩ := hinv.index k e he
+          have holds : o.holds = true := by simp [Out.holds, hph]
+          obtain ⟨a1, _, _, a4⟩ := hinv.files o ho holds fl (by rw [hf]; exact hfl)
+          refine ⟨o, ho, a1.symm, hk, by simp [Out.isAdded, hph], ?_, ht.symm⟩
+          simp only
+          rw [a4 _ hph, ht]
+          exact Nat.min_self _
+
+
+theorem wfRun_snoc (g : Ghost) (pre : List Ev) (e : Ev) :
+    wfRun g (pre ++ [e]) = (wfRun g pre).bind (fun g' => wfStep g' e) := by
+  induction pre generalizing g with
+  | nil => simp only [List.nil_append, wfRun, Option.bind]; cases wfStep g e <;> rfl
+  | cons x rest ih =>
+    simp only [List.cons_append, wfRun]
+    cases wfStep g x with
+    | none => rfl
+    | some g1 => exact ih g1
+
+theorem wfStep_shorter_append (g g1 : Ghost) (f : Int) (n n' : Nat) (hn : n' ≤ n) (h : wfStep g (.append f n) = some g1) :
+    (wfStep g (.append f n')).isSome = true := by
+  simp only [wfStep] at h ⊢
+  cases hfind : g.find? (fun o => o.holds && o.fileno == f) with
+  | none => rw [hfind] at h; cases h
+  | some o =>
+    rw [hfind] at h
+    simp only at h ⊢
+    cases hph : o.phase with
+    | writing b =>
+      rw [hph] at h
+      simp only at h ⊢
+      split at h
+      · rename_i hle
+        have : b + n' ≤ o.total := by omega
+        simp [this]
+      · cases h
+    | added lr => rw [hph] at h; cases h
+    | released => rw [hph] at h; cases h
+
+
 end SquidModel.Ufs.Crash
